@@ -8,7 +8,8 @@ connection runs `reuseConnection`, which is two atomic steps (the keyed RW mutex
 
 * `snap`  (under RLock): read the own cache entry, send the status `snapshot …`;
 * `dec`   (under Lock, after the peer's status arrived): `decide …` with the SNAPSHOT values, except for the
-  re-load leaves; effects: close fresh / close cache / store / delete, result returned to the caller;
+  re-load leaves, which see the entry that is in the cache NOW (`rc` = is there one, `rcdir` = its direction);
+  effects: close fresh / close cache / store / delete, result returned to the caller;
   an incoming end that returns an error closes the connection (`AcceptWithListener`, code 406);
 * `reap`  (`handlePeer` goroutine → `reapPeer`): once a connection that this end stored (returned as new) is
   closed, the cache entry of the peer is deleted-and-closed, whatever it is.
@@ -47,7 +48,7 @@ def Proc.peer : Proc → Proc
 
 structure Table where
   snapshot : Bool → Dir → Dir → CState × Dir
-  decide : CState → Dir → Bool → Dir → Dir → Bool → Act
+  decide : CState → Dir → Bool → Dir → Dir → Bool → Dir → Act
 
 def genTable : Table := ⟨Gen.C41.snapshot, Gen.C41.decide⟩
 
@@ -131,7 +132,7 @@ def step (T : Table) (s : St) : Step → St
     match s.pc i, (s.pc i.peer).status? with
     | .snapped snap mine, some (ps, pd) =>
       let cur := s.cache i.side
-      let act := T.decide ps pd snap.isSome (entryDir snap) i.dir cur.isSome
+      let act := T.decide ps pd snap.isSome (entryDir snap) i.dir cur.isSome (entryDir cur)
       let cacheVar : Entry := if act.reload then cur else snap
       let s := if act.closeFresh then s.close i.conn else s
       let s := if act.closeCache then s.closeEntry cacheVar else s
